@@ -141,6 +141,9 @@ func PackRcreate(fc *Fcall, qid *Qid, iounit uint32) error {
 // fc.Data and call SetRreadCount to update the data size to the
 // actual value.
 func InitRread(fc *Fcall, count uint32) error {
+	if uint64(count)+4 > uint64(len(fc.Buf)) {
+		return &Error{"buffer too small", EINVAL}
+	}
 	size := int(4 + count) /* count[4] data[count] */
 	p, err := packCommon(fc, size, Rread)
 	if err != nil {
